@@ -178,16 +178,9 @@ fn finish(o: &Opts, prop: &str, mut rep: Report, cases: Vec<String>) -> Report {
     rep
 }
 
+/// the value stream of the enum checks (numeric-name variables, placeholder operands, a wide value, every constructor)
 fn value_stream(rng: &mut Rng, fm: &Fm, n: usize, thorough: bool) -> Vec<Narsese> {
-    let g = term_gen_for(fm, if thorough { 6 } else { 4 }, if thorough { 5 } else { 4 });
-    let mut out = vec![];
-    for k in 0..30 {
-        out.push(gen_narsese(rng, &g, k % 3, Some(k)));
-    }
-    for i in 0..n {
-        out.push(gen_narsese(rng, &g, i % 3, None));
-    }
-    out
+    crate::enumprops::value_stream(rng, fm, n, thorough)
 }
 
 // -------------------------------------------------------------------------------------------
@@ -573,7 +566,7 @@ pub fn run_c03(o: &Opts) -> Report {
     let mut rng = Rng::new(o.seed ^ 0xC03);
     let mut cx = Ctx { rep: &mut rep, cases: vec![] };
     // corpus: fixed findings of C03/C10 re-run first
-    for (fi, s) in [(0usize, "(~, A, B)"), (0, "(-, A, B)"), (2, "我曾"), (0, "<A {-- B>"), (0, "<A --] B>"), (0, "<A {-] B>"), (0, "<A <\\> B>"), (0, "(/, R, _, B)"), (0, "(\\, _, R, B)"), (0, "$0.5;0.5;0.5$ <A --> B>. :!-1: %1.0;0.9%"), (0, "+0007"), (0, "_name")] {
+    for (fi, s) in [(0usize, "(~, A, B)"), (0, "(-, A, B)"), (2, "我曾"), (0, "<A {-- B>"), (0, "<A --] B>"), (0, "<A {-] B>"), (0, "<A <\\> B>"), (0, "(/, R, _, B)"), (0, "(\\, _, R, B)"), (0, "$0.5;0.5;0.5$ <A --> B>. :!-1: %1.0;0.9%"), (0, "+0007"), (0, "_name"), (0, "(--, (--, A))"), (0, "(--, (--, <A --> B>))"), (0, "<(--, (--, (--, A))) --> B>."), (1, "\\left(\\neg{}\\; \\left(\\neg{}\\; A\\right)\\right)"), (2, "（非，（非，甲））")] {
         let fm = &formats()[fi];
         let direct = real_parse(fm.e, s);
         match guard(|| fm.l.parse(s).ok()) {
